@@ -47,6 +47,9 @@ def apply_op(spec, pool, refs, op, menu):
         if ws is None:
             pool[i].fill.numpy(np_batch(recs))
             ws = [1.0] * len(recs)
+        elif isinstance(ws, (int, float)):
+            pool[i].fill.numpy(np_batch(recs), ws)  # one scalar weight for the whole batch
+            ws = [float(ws)] * len(recs)
         else:
             pool[i].fill.numpy(np_batch(recs), np.array(ws, dtype=float))
         refs[i].evs.extend(zip(recs, ws))
